@@ -89,7 +89,7 @@ def main(argv):
         floors = core.load_table("floors.json") if os.path.exists(os.path.join(VERIF, "tables", "floors.json")) else {}
         counts = {}
         for o in obs:
-            if "@" in o.oid.split("#")[-1]:
+            if o.oid.rsplit("@", 1)[-1] in sxlib.CONFIGS:
                 continue
             counts[o.rule] = counts.get(o.rule, 0) + 1
         if freeze:
@@ -100,10 +100,16 @@ def main(argv):
         fl = floors.get(pid)
         if fl is None:
             raise AnalysisBroken("no instance floors frozen for %s (tables/floors.json)" % pid)
+        floor_msgs = []
         for rule, n in fl.items():
             if counts.get(rule, 0) < n:
-                raise AnalysisBroken("%s: rule %s matched %d instances, below the confirmed floor %d — anchors moved or the rule lost its sites"
-                                     % (pid, rule, counts.get(rule, 0), n))
+                floor_msgs.append("%s: rule %s matched %d instances, below the confirmed floor %d — anchors moved or the rule lost its sites"
+                                  % (pid, rule, counts.get(rule, 0), n))
+        # a definite violation is reported as such; a floor shortfall alone is analysis-broken
+        if floor_msgs and not any(not o.ok for o in obs):
+            raise AnalysisBroken("; ".join(floor_msgs))
+        for m in floor_msgs:
+            print("NOTE: " + m)
     except AnalysisBroken as e:
         print("ANALYSIS-BROKEN property=%s: %s" % (pid, e))
         return 2
